@@ -1373,8 +1373,22 @@ func c17merge(out *rec.Out, rng *rec.Rng, stats map[string]int, cfg c17cfg) {
 	nn := g.Add("task", "N", "")
 	en := g.Add("endEvent", "end", "")
 	g.Connect(st, f, nil)
-	for i := 0; i < n; i++ {
-		g.Connect(f, m, nil)
+	// every other case: the tokens of the fork first pass ONE exclusive gateway (conditions, a default) at the same
+	// instant — an uncontrolled merge in front of M: whatever the gateway keeps per probing token is used by n tokens at once
+	viaXor := rng.Intn(2) == 0
+	if viaXor {
+		x := g.Add("exclusiveGateway", "X", "")
+		for i := 0; i < n; i++ {
+			g.Connect(f, x, nil)
+		}
+		g.Connect(x, m, &eng.Cond{Op: "eq", Var: "v0", K: 0})
+		d := g.Connect(x, nn, nil)
+		x.Default = d.ID
+		stats["merge_through_exclusive_gateway"]++
+	} else {
+		for i := 0; i < n; i++ {
+			g.Connect(f, m, nil)
+		}
 	}
 	g.Connect(m, c, nil)
 	g.Connect(c, nn, nil)
